@@ -14,7 +14,8 @@ EXTENDS Alpha, Json
 CONSTANTS MaxDepth,        \* number of applied moves per behaviour
           Moves(_, _),     \* Moves(heap, known): the sequence of moves offered in this state
           SrcHeaps,        \* sequence of initial heaps (each a sequence of source tables)
-          Emit             \* BOOLEAN: Finish prints the behaviour as JSON
+          Emit,            \* BOOLEAN: Finish prints the behaviour as JSON
+          AllowUndef       \* BOOLEAN: keep results with UNDEF cells (operator tables: the cell is skipped by the replayer)
 
 VARIABLES heap,    \* Seq(TableValue): sources first, then every table any action produced (append-only)
           nid,     \* next fresh column identity
@@ -82,7 +83,7 @@ ApplyObs == /\ pend # None /\ IsObsMove(pend)
 Apply == /\ pend # None /\ ~IsObsMove(pend)
          /\ LET r == ApplyMove(heap, pend, nid) IN
             IF r.ok
-            THEN IF HasUndef(r.t)
+            THEN IF HasUndef(r.t) /\ ~AllowUndef
                  THEN UNCHANGED <<heap, nid, known, hist>>          \* outside the backend-independent fragment: dropped
                  ELSE /\ heap' = Append(heap, r.t)
                       /\ nid' = nid + NewCount(heap, pend)
